@@ -60,7 +60,7 @@ register("C15", "simlab.profiles.c15", "exploration",
          seams=["program schedule with aliasing of handles"], design_ref="4/C15")
 
 register("C16", "simlab.profiles.c16", "exploration",
-         budgets={"quick": dict(runs=800, timeout=180), "thorough": dict(runs=30000, timeout=300)},
+         budgets={"quick": dict(runs=320, timeout=180), "thorough": dict(runs=12000, timeout=300)},
          rule=("each run = one seeded session over 2-5 SHARED basis instances: op_mat requests for supported symbols, requests for unsupported "
                "symbols (legal ValueError), use inside Model/Mpo, defining-relation checks, and model-builder checks against harness-assembled "
                "Hamiltonians.  non-trivial = basis with >= 2 states / builder with a checked Hamiltonian; distinct = distinct "
